@@ -1,5 +1,10 @@
 // C17 harness: text-consuming functions of the implementation, one query per line, one answer line per query.
-// line:  <errno-to-preset> <cmd> <hex args...>      ("-" is the empty string)
+// line:  <errno-to-preset>[:<fill byte, hex>[:w]] <cmd> <hex args...>      ("-" is the empty string)
+//   fill = the byte every piece of caller-provided output storage (out buffers, match arrays, end pointers) and 64 KB of
+//          stack below the call are pre-filled with ("what was there before"); default 00
+//   w    = warm state: objects that live across calls (compiled regex + its output array, pool, out buffer) have already
+//          served another call before the one whose result is printed
+// A result must be a function of the query alone: the check runs every query under several prefixes and compares.
 // Every input is copied into an exactly sized heap buffer (terminator = last byte, or no terminator at all for the
 // length-delimited entry points), so that a one byte over/under-read is visible to ASan.
 // iwjser.c is included to reach the static _jbl_unescape_json_string.
@@ -41,6 +46,57 @@ static char* exact(const uint8_t *b, size_t n) {
   return p;
 }
 
+static int g_fill = 0, g_warm = 0;
+// what an earlier, unrelated call left on the stack: uninitialised locals of the callee start out as g_fill
+static void __attribute__((noinline)) poison_stack(int fill) {
+  volatile char junk[1 << 16];
+  memset((void*) junk, fill, sizeof(junk));
+  __asm__ volatile ("" : : "r" (junk) : "memory");
+}
+// a pointer-sized value made of the fill byte
+static const char* fillptr(void) {
+  const char *p; memset(&p, g_fill, sizeof(p)); return p;
+}
+
+// iwre_match into an exactly sized heap array of `len` slots.  Answer: <ret> then EVERY slot of the array: offset into
+// the text, -1 = null, S = still the pre-fill value (stale), W = any other pointer outside the text.
+// ret = -1: the API defines errno (EINVAL) and leaves the array alone (`untouched` / `touched`).
+static void do_rematch(const char *pat, const char *text, size_t len) {
+  struct iwre *re = iwre_create(pat);
+  if (!re) { printf("nocompile\n"); return; }
+  size_t tl = strlen(text);
+  const char **mp = (const char**) zalloc(len * sizeof(*mp));
+  for (size_t i = 0; i < len; ++i) mp[i] = fillptr();
+  char *decoy = 0;
+  if (g_warm) {                                         // leftovers of an earlier match: pointers into ANOTHER buffer
+    decoy = malloc(tl + 1); memcpy(decoy, text, tl + 1);
+    int pe = errno;
+    (void) iwre_match(re, decoy, mp, len);
+    errno = pe;
+  }
+  poison_stack(g_fill);
+  int r = iwre_match(re, text, mp, len);
+  int e = errno;
+  printf("%d", r);
+  if (r < 0) {
+    if (e == EINVAL) printf(" EINVAL"); else printf(" e%d", e);
+    int same = 1;
+    for (size_t i = 0; i < len; ++i) if (mp[i] != fillptr()) same = 0;
+    printf(same ? " untouched" : " touched");
+  } else {
+    for (size_t i = 0; i < len; ++i) {
+      if (!mp[i]) printf(" -1");
+      else if (mp[i] >= text && mp[i] <= text + tl) printf(" %d", (int) (mp[i] - text));
+      else if (mp[i] == fillptr()) printf(" S");
+      else printf(" W");
+    }
+  }
+  printf("\n");
+  iwre_destroy(re);
+  zfree((char*) mp, len * sizeof(*mp));
+  free(decoy);
+}
+
 static void putdbl(double d) {
   if (isnan(d)) printf("nan");
   else if (isinf(d)) printf(d < 0 ? "-inf" : "inf");
@@ -80,6 +136,15 @@ int main(void) {
     int n = toks(line, tv, 40);
     if (n < 2) { printf("\n"); continue; }
     int pre = atoi(tv[0]);
+    g_fill = 0; g_warm = 0;
+    {
+      char *c1 = strchr(tv[0], ':');
+      if (c1) {
+        g_fill = (int) strtol(c1 + 1, 0, 16) & 255;
+        char *c2 = strchr(c1 + 1, ':');
+        g_warm = c2 && c2[1] == 'w';
+      }
+    }
     const char *cmd = tv[1];
     char **a = tv + 2;
     int na = n - 2;
@@ -87,6 +152,7 @@ int main(void) {
       uint8_t *p; unhex(a[0], &p);
       struct jbl_ptr *jp = 0;
       errno = pre;
+      poison_stack(g_fill);
       iwrc rc = jbl_ptr_alloc((char*) p, &jp);
       if (rc == JBL_ERROR_JSON_POINTER) printf("E"); else printf("%" PRIu64, (uint64_t) rc);
       if (!rc && jp) {
@@ -101,7 +167,10 @@ int main(void) {
       char *hx_ = exact(h, l);
       size_t osz = max > 0 ? max : 0;
       char *out = zalloc(osz);
+      memset(out, g_fill, osz);
+      if (g_warm) { char *ff = zalloc(l); memset(ff, 'f', l); (void) iwhex2bin(ff, (int) l, out, max); zfree(ff, l); }
       errno = pre;
+      poison_stack(g_fill);
       size_t r = iwhex2bin(hx_, (int) l, out, max);
       printf("%zu ", r); puthex(out, r); printf("\n");
       zfree(out, osz); zfree(hx_, l); free(h);
@@ -111,41 +180,55 @@ int main(void) {
       char *bin = exact(b, l);
       size_t osz = max > 0 ? max : 0;
       char *out = zalloc(osz);
+      memset(out, g_fill, osz);
+      if (g_warm) { char *ff = zalloc(l); memset(ff, 0xff, l); (void) iwbin2hex(out, (size_t) max, (unsigned char*) ff, l); zfree(ff, l); }
       errno = pre;
+      poison_stack(g_fill);
       char *r = iwbin2hex(out, (size_t) max, (unsigned char*) bin, l);
       if (!r) printf("null\n"); else { puthex(out, strlen(out)); printf("\n"); }
       zfree(out, osz); zfree(bin, l); free(b);
     } else if (!strcmp(cmd, "atoi") && na == 1) {
       uint8_t *b; unhex(a[0], &b);
       errno = pre;
+      poison_stack(g_fill);
       printf("%" PRId64 "\n", iwatoi((char*) b)); free(b);
     } else if (!strcmp(cmd, "atoi2") && na == 1) {      // length delimited, buffer has NO terminator
       uint8_t *b; size_t l = unhex(a[0], &b);
       char *e = exact(b, l);
       errno = pre;
+      poison_stack(g_fill);
       printf("%" PRId64 "\n", iwatoi2(e, l)); zfree(e, l); free(b);
     } else if (!strcmp(cmd, "atof") && na == 1) {
       uint8_t *b; unhex(a[0], &b);
       errno = pre;
+      poison_stack(g_fill);
       putdbl((double) iwatof((char*) b)); printf("\n"); free(b);
     } else if (!strcmp(cmd, "afcmp") && na == 2) {
       uint8_t *x, *y; size_t lx = unhex(a[0], &x), ly = unhex(a[1], &y);
       char *ex = exact(x, lx), *ey = exact(y, ly);
       errno = pre;
+      poison_stack(g_fill);
       printf("%d\n", sgn(iwafcmp(ex, (int) lx, ey, (int) ly)));
       zfree(ex, lx); zfree(ey, ly); free(x); free(y);
     } else if (!strcmp(cmd, "strtod") && na == 1) {
       uint8_t *b; unhex(a[0], &b);
-      char *end = 0;
+      char *end = (char*) fillptr();
       errno = pre;
+      poison_stack(g_fill);
       double d = iwstrtod((char*) b, &end);
-      putdbl(d); printf(" %d\n", (int) (end - (char*) b)); free(b);
+      putdbl(d);
+      if (end >= (char*) b && end <= (char*) b + strlen((char*) b)) printf(" %d\n", (int) (end - (char*) b));
+      else printf(" %s\n", end == (char*) fillptr() ? "S" : "W");
+      free(b);
     } else if ((!strcmp(cmd, "json") || !strcmp(cmd, "js")) && na == 1) {
       uint8_t *b; unhex(a[0], &b);
       struct iwpool *pool = iwpool_create(0);
       struct jbl_node *node = 0;
+      int isjson = cmd[1] == 's' && cmd[2] == 'o';
+      if (g_warm) { (void) (isjson ? jbn_from_json((char*) b, &node, pool) : jbn_from_js((char*) b, &node, pool)); node = 0; }
       errno = pre;
-      iwrc rc = cmd[1] == 's' && cmd[2] == 'o' ? jbn_from_json((char*) b, &node, pool) : jbn_from_js((char*) b, &node, pool);
+      poison_stack(g_fill);
+      iwrc rc = isjson ? jbn_from_json((char*) b, &node, pool) : jbn_from_js((char*) b, &node, pool);
       printf("%" PRIu64 " ", (uint64_t) rc);
       if (!rc && node) dump_json(node); else printf("~");
       printf("\n");
@@ -155,6 +238,7 @@ int main(void) {
       struct iwpool *pool = iwpool_create(0);
       JCTX ctx = { .pool = pool, .buf = (char*) b };
       errno = pre;
+      poison_stack(g_fill);
       const char *e = _jbl_parse_value(&ctx, 0, 0, 0, 0, ctx.buf);
       if (ctx.rc || !ctx.root) printf("E\n");
       else if (ctx.root->type == JBV_I64) printf("I %" PRId64 " %d\n", ctx.root->vi64, (int) (e - (char*) b));
@@ -167,11 +251,14 @@ int main(void) {
       JCTX ctx = { 0 };
       const char *end = 0;
       errno = pre;
+      poison_stack(g_fill);
       int len = _jbl_unescape_json_string(&ctx, q, (char*) b, 0, 0, &end);
       if (ctx.rc) printf("%s\n", ctx.rc == JBL_ERROR_PARSE_INVALID_CODEPOINT ? "Ecp" : ctx.rc == JBL_ERROR_PARSE_UNQUOTED_STRING ? "Eunq" : "E?");
       else {
         char *out = zalloc(len);                       // exactly len bytes: an overflowing fill pass is visible
+        memset(out, g_fill, len);
         const char *end2 = 0;
+        poison_stack(g_fill);
         int len2 = _jbl_unescape_json_string(&ctx, q, (char*) b, out, len, &end2);
         printf("%d %d %d %d ", len, len2, (int) (end - (char*) b), (int) (end2 - (char*) b));
         puthex(out, len2 < len ? len2 : len); printf("\n");
@@ -183,6 +270,7 @@ int main(void) {
       struct iwpool *pool = iwpool_create(0);
       struct jbl_node *doc = 0, *pt = 0;
       errno = pre;
+      poison_stack(g_fill);
       iwrc rc = jbn_from_json((char*) d, &doc, pool);
       if (!rc) rc = jbn_from_json((char*) p, &pt, pool);
       if (rc || !doc || !pt) printf("parse-rc=%" PRIu64 "\n", (uint64_t) rc);
@@ -196,11 +284,12 @@ int main(void) {
     } else if (!strcmp(cmd, "at") && na == 2) {        // jbn_at(doc, pointer)
       uint8_t *d, *p; unhex(a[0], &d); unhex(a[1], &p);
       struct iwpool *pool = iwpool_create(0);
-      struct jbl_node *doc = 0, *res = 0;
+      struct jbl_node *doc = 0, *res = (struct jbl_node*) fillptr();
       errno = pre;
       iwrc rc = jbn_from_json((char*) d, &doc, pool);
       if (rc || !doc) printf("parse-rc=%" PRIu64 "\n", (uint64_t) rc);
       else {
+        poison_stack(g_fill);
         rc = jbn_at(doc, (char*) p, &res);
         printf("%" PRIu64 " ", (uint64_t) rc);
         if (!rc && res) dump_json(res); else printf("~");
@@ -210,6 +299,7 @@ int main(void) {
     } else if (!strcmp(cmd, "xstr")) {                 // ops: c<hex> u<hex> s<n> p<n> i<pos>:<hex>
       struct iwxstr *x = iwxstr_create(atoi(a[0]));
       errno = pre;
+      poison_stack(g_fill);
       for (int i = 1; i < na; ++i) {
         char op = a[i][0];
         if (op == 'c' || op == 'u') {
@@ -233,7 +323,9 @@ int main(void) {
     } else if (!strcmp(cmd, "split") && na == 3) {
       uint8_t *h, *c; unhex(a[0], &h); unhex(a[1], &c);
       struct iwpool *pool = iwpool_create(0);
+      if (g_warm) (void) iwpool_split_string(pool, (char*) h, (char*) c, !atoi(a[2]));
       errno = pre;
+      poison_stack(g_fill);
       const char **r = iwpool_split_string(pool, (char*) h, (char*) c, atoi(a[2]));
       int k = 0;
       for ( ; r && r[k]; ++k) { if (k) printf(" "); puthex(r[k], strlen(r[k])); }
@@ -250,6 +342,7 @@ int main(void) {
       }
       struct iwxstr *res = 0;
       errno = pre;
+      poison_stack(g_fill);
       iwrc rc = iwu_replace(&res, (char*) d, (int) dl, (const char**) m.k, nk, repl_cb, &m);
       printf("%" PRIu64 " ", (uint64_t) rc);
       if (!rc && res) { puthex(iwxstr_ptr(res), iwxstr_size(res)); iwxstr_destroy(res); } else printf("~");
@@ -260,22 +353,19 @@ int main(void) {
       uint8_t *b; unhex(a[0], &b);
       errno = pre;
       printf("ini");
+      poison_stack(g_fill);
       int rc = iwini_parse_string((char*) b, ini_cb, 0);
       printf(" rc=%d\n", rc);
       free(b);
-    } else if (!strcmp(cmd, "re") && na == 2) {
+    } else if (!strcmp(cmd, "re") && na == 2) {        // 16 slots, as most callers in the wild
       uint8_t *p, *t; unhex(a[0], &p); unhex(a[1], &t);
       errno = pre;
-      struct iwre *re = iwre_create((char*) p);
-      if (!re) printf("nocompile\n");
-      else {
-        const char *mp[16];
-        int r = iwre_match(re, (char*) t, mp, 16);
-        printf("%d", r);
-        for (int i = 0; i < 2 * r && i < 16; ++i) printf(" %d", mp[i] ? (int) (mp[i] - (char*) t) : -1);
-        printf("\n");
-        iwre_destroy(re);
-      }
+      do_rematch((char*) p, (char*) t, 16);
+      free(p); free(t);
+    } else if (!strcmp(cmd, "rem") && na == 3) {       // <pattern> <text> <number of slots of the output array>
+      uint8_t *p, *t; unhex(a[0], &p); unhex(a[1], &t);
+      errno = pre;
+      do_rematch((char*) p, (char*) t, (size_t) strtoul(a[2], 0, 10));
       free(p); free(t);
     } else printf("?\n");
   }
